@@ -56,7 +56,9 @@ static void show(JsonVariantConst v, string& o) {
     case VariantType::Int32:
     case VariantType::Int64: snprintf(buf, 48, "I%lld", (long long)v.as<int64_t>()); o += buf; break;
     case VariantType::Float: { float f = v.as<float>(); uint32_t b; memcpy(&b, &f, 4); snprintf(buf, 48, "f%08x", b); o += buf; break; }
+#if ARDUINOJSON_USE_DOUBLE
     case VariantType::Double: { double f = v.as<double>(); uint64_t b; memcpy(&b, &f, 8); snprintf(buf, 48, "d%016llx", (unsigned long long)b); o += buf; break; }
+#endif
     case VariantType::LinkedString:
     case VariantType::OwnedString: { JsonString s = v.as<JsonString>(); o += "S" + hexs(s.c_str(), s.size()); break; }
     case VariantType::RawString: { JsonString s = d->asRawString(); o += "R" + hexs(s.c_str(), s.size()); break; }
